@@ -64,6 +64,8 @@ def run(ck):
             tasks.append({"scen": scen, "params": p, "strat": ["pct", rng.randrange(10 ** 9), 3, 200],
                           "gran": "line" if i % 3 == 0 else "sync", "facts": {}})
         ck.run_and_validate(tasks, trace)
+    # retries stopped by a refused cancel while another submission's earlier back-off is pending: finalised at once
+    ck.run_and_validate(c05.stopped_tasks(quick), c05.TRACE, nontrivial=lambda t, r: True)
     # placement sweep: every producer-side state change lands at every step index of the worker's
     # check / wait / clear sequence (sync granularity) and at a dense sample of source lines (line granularity)
     fixed = [
